@@ -1027,6 +1027,18 @@ func (d *NNSDriver) readback(x *Exec, prev, nn *Node, m, nm *nnsModel, outcome s
 		}
 	}
 	if d.Mode == "C10" {
+		// top-level names are names too: taken while they live, free again from the instant they run out (for the
+		// committee, which alone can register them), and free when they never existed
+		for _, t := range []string{"com", "org", "net"} {
+			av := rd("isAvailable", t)
+			want := "i1"
+			if nm.roots[t] && nm.alive(t) {
+				want = "i0"
+			}
+			if !Same(av.Ret0(), want) {
+				return viol("isAvailable", fmt.Sprintf("isAvailable(%s)=%v %q want %s (top-level name, now=%d exp=%d)", t, av.Stack, av.Fault, want, nm.now, nm.names[t].exp), map[string]any{"op": o.kind, "name": t, "tld": true})
+			}
+		}
 		nn.M = nm
 		return StepResult{Next: nn, Outcome: outcome, Changed: changed}
 	}
